@@ -254,6 +254,9 @@ def gen_cache_trace(seed, faults, kinds=("wb", "wt")):
     ctx = _Ctx(r, cfg, faults)
     dm = R.deep(r)
     n = r.choice([r.randint(1, 12), r.randint(5, 40), r.randint(20, 80)]) * dm
+    marathon = R.marathon(seed)
+    if marathon:
+        n = marathon
     p_write = r.choice([0.2, 0.5, 0.5, 0.8])
     p_fault = r.choice([0.05, 0.1, 0.2]) if faults else 0.0
     p_unc = r.choice([0.0, 0.1, 0.3])
@@ -277,7 +280,7 @@ def gen_cache_trace(seed, faults, kinds=("wb", "wt")):
                     ops.append(["PRE", w, ctx.aligned_addr(w), ctx.value(w)])
         else:
             ops.append(_rw(ctx, p_write, p_fault, p_unc))
-    return {"config": cfg, "faults": bool(faults), "decoy": r.random() < 0.25, "ops": ops[: 100 * dm]}
+    return {"config": cfg, "faults": bool(faults), "decoy": r.random() < 0.25, "ops": ops[: max(100 * dm, marathon + 20)]}
 
 
 # ---------------------------------------------------------------------------
@@ -317,6 +320,7 @@ def gen_flat_trace(seed, faults):
     window = r.choice([lo, lo, lo + r.randrange(0, 64), hi - 40, (lo + hi) // 2])
     ops = []
     n = r.choice([r.randint(1, 10), r.randint(5, 40), r.randint(20, 80)])
+    n = R.marathon(seed) or n
     for _ in range(n):
         w = r.choice(widths)
         k = r.random()
